@@ -284,6 +284,7 @@ func cmdCheck(args []string) int {
 	}
 	e.nworkers = workers
 	e.seed = int64(seed)
+	e.stopAfterViol = 3
 	names := harnessNames(e)
 	known := loadKnown()
 
